@@ -219,7 +219,12 @@ def e3(repo):
         a = match_arms(t)
         if len(a) != 2 or a[1][0] != "_" or a[1][1] != "break":
             raise ValueError("%s: unexpected loop shape" % fn)
-        if not re.fullmatch(r"\{\s*%s\s*\.\s*push\s*\(\s*buf\s*\.\s*next\s*\(\s*\)\s*\.\s*unwrap\s*\(\s*\)\s*\.\s*1\s*\)\s*;?\s*\}" % var, a[0][1]):
+        consume = r"\{\s*%s\s*\.\s*push\s*\(\s*buf\s*\.\s*next\s*\(\s*\)\s*\.\s*unwrap\s*\(\s*\)\s*\.\s*1\s*\)\s*;?\s*\}" % var
+        # the same step with the peeked character bound by the loop head: `while let Some(&(_, c)) = buf.peek() { match c { … => { word.push(c); buf.next(); } … } }`
+        pk = re.search(r"while\s+let\s+Some\s*\(\s*&?\s*\(\s*_\s*,\s*(\w+)\s*\)\s*\)\s*=\s*buf\s*\.\s*peek\s*\(\s*\)", b)
+        peeked = r"\{\s*%s\s*\.\s*push\s*\(\s*\*?%s\s*\)\s*;\s*buf\s*\.\s*next\s*\(\s*\)\s*;?\s*\}" % (var, re.escape(pk.group(1))) if pk else None
+        head_is_peeked = pk and re.search(r"match\s+\*?%s\s*\{" % re.escape(pk.group(1)), b)
+        if not (re.fullmatch(consume, a[0][1]) or (peeked and head_is_peeked and re.fullmatch(peeked, a[0][1]))):
             raise ValueError("%s: unexpected loop body %r" % (fn, a[0][1]))
         return char_class(a[0][0])
     word_cont = cont_class("read_word", "word")
